@@ -28,10 +28,11 @@ next allocation / iteration / exit; direct allocations advance backend_request.f
 each formula-based sampler consults the error gate, passes the solver get_cnfs_as_json(), fresh - 1,
 variables_per_sample() and the cardinality requests of the very request it built, decodes every returned assignment
 with Gen.decode, and synthesize_trials completes every raw sample with add_implied_levels. The clauses about what the
-individual encodings mean are those of C07 (crossing requirement), C10 (cardinality), C14 (variable layout), C15
+individual encodings mean are those of C07 (crossing requirement; encoder / checker pairs incl. the per-case clause table
+of the run-length encoders, as C01.encoders), C10 (cardinality), C14 (variable layout), C15
 (derivations), C16 (trial count) and C26 (window scoping); they are evaluated here as well, under their own rule names.
 """
-NOT_DECIDED = "that each individual encoding (window arithmetic, implication shapes of the run-length constraints, derivation index shifts, Latin-square rotations) means its documentation for every design."
+NOT_DECIDED = "that each individual encoding (window arithmetic, derivation index shifts, Latin-square rotations, the propositional meaning of the run-length implications beyond their recorded case table) means its documentation for every design."
 
 INCLUDED = ["C10", "C14", "C15", "C16", "C18", "C26"]
 NO_EMISSION = {"Reify": "documented no-op: only makes a factor non-implied", "ContinuousConstraint": "acts on continuous values after the discrete solve",
@@ -360,6 +361,9 @@ def check(ctx):
     rule_pipeline(ctx)
     C07.crossing_facts(ctx, R="C01.crossing")
     C07.latin_rotations(ctx, R="C01.latin")
+    # what the individual constraint encoders emit, against what their checkers mean (the encoder is one side of every pair)
+    for pair in (C07.pair_sequential, C07.pair_latin, C07.pair_sustain, C07.pair_pin, C07.pair_exclude, C07.pair_kinarow):
+        pair(ctx, R="C01.encoders")
     if not ctx.is_control or getattr(ctx, "nested_ok", False):
         for name in INCLUDED:
             include(ctx, name)
@@ -380,3 +384,4 @@ def check(ctx):
     ctx.min_instances("C01.pipeline", 8)
     ctx.min_instances("C01.gate", 5)
     ctx.min_instances("C01.crossing", 14)
+    ctx.min_instances("C01.encoders", 40)
